@@ -227,6 +227,10 @@ def lifecycle(ctx):
                                 f"ping at {t}, thread start {start}, alive {alive}", size=appcheck.size_of(sc))
                 if rest.split(":")[2] != sc["payload"].encode().hex():
                     ctx.violate("periodic", "ping-payload", sc, "configured payload", rest, size=appcheck.size_of(sc))
+        for i, al in enumerate(r["alive"]):
+            if al:
+                ctx.violate("periodic", "ping-thread-alive-after-end", sc, "pings stop when the connection ends",
+                            f"run {i}: alive={al}", size=appcheck.size_of(sc))
     appcheck.evaluate(ctx, "C16", scs, cls_of=lambda sc: "lifecycle", extra_check=extra)
 
 
